@@ -128,7 +128,7 @@ HasSharable(T) == \E X \in Nodes(T) : X.k \in {"slice", "array", "map"} /\ Alloc
 \* imported key structs whose keys differ only in UNEXPORTED fields (read through reflect + unsafe)
 KXStruct  == Struct("KX", "ext", <<Field("a", TInt)>>)
 KX2Struct == Struct("KX2", "ext", <<Field("A", Basic("bool")), Field("b", TString)>>)
-IsKeyType(T) == T \in KeyTypeSet \cup {KXStruct, KX2Struct, KDStruct, Struct("K2", "local", <<Field("A", KDStruct), Field("B", TString)>>)}
+IsKeyType(T) == T \in KeyTypeSet \cup {Basic("complex128"), Basic("complex64"), KXStruct, KX2Struct, KDStruct, Struct("K2", "local", <<Field("A", KDStruct), Field("B", TString)>>)}
 
 RECURSIVE WF(_, _, _, _)
 \* env: set of struct names in scope; under: TRUE iff directly below ptr/slice/map value
@@ -282,7 +282,11 @@ ExtMulti ==
 C64Types == LET c == Basic("complex64") IN
   {c, Ptr(c), Slice(c), Array(c), Map(TInt, c), Struct("S1", "local", <<Field("A", c)>>),
    Struct("S1", "ext", <<Field("a", c)>>), Struct("S1", "local", <<Field("A", TInt), Field("B", c)>>)}
-ExtraPlain == KXKeyed \cup ExtMulti \cup C64Types      \* no user methods; enumerated with the method types (harness: fixed core)
+\* maps keyed by a complex kind: keys have no < operator, the sorted-key walks order them by derived compare
+CplxKeyed ==
+  LET ms == {Map(Basic(b), TInt) : b \in {"complex64", "complex128"}} \cup {Map(Basic("complex128"), TString)} IN
+  ms \cup {Struct("S2", "local", <<Field("A", m)>>) : m \in ms} \cup {Slice(m) : m \in ms}
+ExtraPlain == KXKeyed \cup ExtMulti \cup C64Types \cup CplxKeyed      \* no user methods; enumerated with the method types (harness: fixed core)
 
 MethLayer1 == {T \in ConsOver(MethComponents) : NoEmbMeth(T) /\ ~PtrChainToMeth(T)}
 MethTypes(d) ==
